@@ -1,6 +1,6 @@
 (* TrUcTab.v -- find() and the width classes of uc.c: the model (RenDefs.v) is the translated C text. *)
 From Coq Require Import List ZArith NArith Bool Lia.
-From NV Require Import Bytes UcDefs GenUcTables RenDefs RenProps CLite CLiteProps GenCFuncs TrUc.
+From NV Require Import Bytes UcDefs GenUcTables RenDefs RenProps CLite CLiteProps GenCFuncs CLiteTac TrUcCode.
 Import ListNotations.
 Local Open Scope Z_scope.
 
